@@ -12,6 +12,17 @@ SEG_METHOD = "verif_identity"
 CALLS = []  # (kind, side-agnostic marker) appended by the stubs; read by probes
 
 
+def _img_digest(img):
+    import hashlib
+
+    import numpy as np
+
+    h = hashlib.sha1(np.ascontiguousarray(img["im"].data).tobytes())
+    if "msk" in img:
+        h.update(np.ascontiguousarray(img["msk"].data).tobytes())
+    return h.hexdigest()[:12]
+
+
 def register():
     from pandora import optimization, semantic_segmentation
 
@@ -33,6 +44,11 @@ def register():
             pass
 
         def optimize_cv(self, cv, img_left, img_right):
+            # the volume is returned unchanged; which images the step was given is recorded in the volume's attrs
+            # (they travel to the disparity dataset), so that a pass called with the wrong images is observable
+            cv.attrs["verif_optimization_saw"] = list(cv.attrs.get("verif_optimization_saw", [])) + [
+                [_img_digest(img_left), _img_digest(img_right)]
+            ]
             return cv
 
     @semantic_segmentation.AbstractSemanticSegmentation.register_subclass(SEG_METHOD)
@@ -52,6 +68,9 @@ def register():
             pass
 
         def compute_semantic_segmentation(self, cv, img_left, img_right):
+            cv.attrs["verif_segmentation_saw"] = list(cv.attrs.get("verif_segmentation_saw", [])) + [
+                [_img_digest(img_left), _img_digest(img_right)]
+            ]
             return img_left
 
 
